@@ -139,8 +139,61 @@ var c07Snippets = []string{
 	`func f(a int) (int, string) { switch { case a < 0: return -1, "neg"; case a == 0: return 0, "zero" }; for { if a > 10 { break }; a++ }; return a, "pos" }; for i := -1; i < 2; i++ { f(i) }`,
 }
 
+// c07WideProgram: functions whose frames are wide (100-300 local slots, slot numbers beyond 7 and 8 bits),
+// calling each other with many arguments and results, with range loops, function literals and method calls
+// placed after the many declarations, and a caller that itself has many live locals below the callee's frame.
+func c07WideProgram(rng *core.Rng, id int) *gen.Program {
+	var sb strings.Builder
+	sb.WriteString("package main\n\nimport \"fmt\"\n\ntype W struct {\n\tN int\n}\n\n")
+	sb.WriteString("func (w *W) Add(a int, b int, c int) (int, int) {\n\tw.N += a\n\treturn w.N + b, c\n}\n\n")
+	nBig := rng.Range(100, 300)
+	nArgs := rng.Range(1, 12)
+	var ps, as []string
+	for i := 0; i < nArgs; i++ {
+		ps = append(ps, fmt.Sprintf("p%d int", i))
+		as = append(as, fmt.Sprint(i+1))
+	}
+	fmt.Fprintf(&sb, "func big(%s) (int, int, int) {\n", strings.Join(ps, ", "))
+	for i := 0; i < nBig; i++ {
+		switch rng.Intn(4) {
+		case 0:
+			fmt.Fprintf(&sb, "\tv%d := p0 + %d\n", i, i)
+		case 1:
+			fmt.Fprintf(&sb, "\tvar v%d int = %d\n", i, i)
+		case 2:
+			fmt.Fprintf(&sb, "\tv%d := %d\n\tv%d++\n", i, i, i)
+		default:
+			fmt.Fprintf(&sb, "\tv%d := p%d * 2\n", i, rng.Intn(nArgs))
+		}
+		if i > 0 {
+			fmt.Fprintf(&sb, "\t_ = v%d\n", i)
+		}
+	}
+	last := nBig - 1
+	sb.WriteString("\ts := v0\n")
+	fmt.Fprintf(&sb, "\tfor k, e := range []int{3, 4, 5} {\n\t\ts += k*e + v%d\n\t}\n", last)
+	sb.WriteString("\tm := map[string]int{\"a\": 1}\n\tfor k2, e2 := range m {\n\t\ts += len(k2) + e2\n\t}\n")
+	sb.WriteString("\tfor i3 := range \"ab\" {\n\t\ts += i3\n\t}\n")
+	sb.WriteString("\tw := &W{N: 1}\n\tq1, q2 := w.Add(s, 2, 3)\n")
+	sb.WriteString("\tlit := func(a int, b int) (int, int) {\n\t\tz := a + b\n\t\treturn z, a\n\t}\n\tl1, l2 := lit(q1, q2)\n")
+	fmt.Fprintf(&sb, "\tfor j := 0; j < 2; j++ {\n\t\tt := j + v%d\n\t\tif t > 1000000 {\n\t\t\tcontinue\n\t\t}\n\t\ts += t\n\t}\n", last/2)
+	fmt.Fprintf(&sb, "\treturn s + l1, l2 + v%d, w.N\n}\n\n", last)
+	nCaller := rng.Range(100, 200)
+	sb.WriteString("func caller() int {\n")
+	for i := 0; i < nCaller; i++ {
+		fmt.Fprintf(&sb, "\ta%d := %d\n", i, i*3+1)
+	}
+	fmt.Fprintf(&sb, "\tr1, r2, r3 := big(%s)\n\tsum := r1 + r2 + r3\n", strings.Join(as, ", "))
+	for i := 0; i < nCaller; i++ {
+		fmt.Fprintf(&sb, "\tsum += a%d\n", i)
+	}
+	sb.WriteString("\treturn sum\n}\n\nfunc main() {\n\tfmt.Println(caller())\n\tfmt.Println(caller())\n}\n")
+	dir := fmt.Sprintf("ref/w%06d/cmd%06d", id, id)
+	return &gen.Program{Files: map[string]string{dir + "/main.go": sb.String()}, MainDir: dir, Profile: "wide-frames"}
+}
+
 func runC07(r *core.Run) {
-	r.SetRule("generated programs of every profile (both optimizer settings) and hand-written Eval snippets run under the VM trace monitor; each generated program is additionally re-run under every branch-decision vector up to a fixed length (forced-branch mode: the hook overwrites the condition before JUMPFALSE/JUMPTRUE/AND/OR) and under random decision tails. non-trivial = at least 10 distinct instructions executed under the monitor; distinct by source text and optimizer setting")
+	r.SetRule("generated programs of every profile (both optimizer settings) hand-written Eval snippets and wide-frame programs (functions with 100-300 local slots, up to 12 parameters, range loops / literals / method calls after the declarations, called from a frame with 100-200 live locals) run under the VM trace monitor; each generated program is additionally re-run under every branch-decision vector up to a fixed length (forced-branch mode: the hook overwrites the condition before JUMPFALSE/JUMPTRUE/AND/OR) and under random decision tails. non-trivial = at least 10 distinct instructions executed under the monitor; distinct by source text and optimizer setting")
 	r.Assume("the trace specification (per-opcode stack effect, depth is a function of pc, slot operands inside the frame, branch targets on instruction starts, RETURN depth, caller locals untouched) is written from the instruction-set semantics in do.go; it is data-independent, so paths forced against the program's own data cannot raise false alarms")
 	perProfile := r.N(45, 700)
 	forceLen := r.N(5, 8)
@@ -197,6 +250,11 @@ func runC07(r *core.Run) {
 	}
 	for _, s := range c07Snippets {
 		cases = append(cases, c07Case{Kind: "eval", Src: s, Optimize: true, Stmts: true}, c07Case{Kind: "eval", Src: s, Stmts: true})
+	}
+	for i := 0; i < r.N(12, 200); i++ {
+		w := c07WideProgram(core.Derive(r.Seed, "c07-wide", i), i)
+		cases = append(cases, c07Case{Kind: "program", Files: w.Files, Main: w.MainDir, Optimize: true}, c07Case{Kind: "program", Files: w.Files, Main: w.MainDir})
+		r.Count("wide_frame_programs", 1)
 	}
 	// The repository's test strings are not used here: many are deliberately not
 	// Go (a bare 'continue', 'for { 42 continue 43 }', functions without
